@@ -86,6 +86,17 @@ def hello(name="world"):
     return "hello " + str(name)
 
 
+def blank():
+    """an empty text: a legitimate, cacheable value"""
+    _rec("blank")
+    return ""
+
+
+def blankb():
+    _rec("blankb")
+    return b""
+
+
 def num(n: int = 7):
     _rec("num", n)
     return n
@@ -306,7 +317,7 @@ class V:
 def _vocab():
     return [
         V("one", one, "first"), V("hello", hello, "first"), V("num", num, "first"), V("lst", lst, "first"), V("dct", dct, "first"),
-        V("failfirst", failfirst, "first"), V("vfirst", vfirst, "first", volatile=True),
+        V("failfirst", failfirst, "first"), V("vfirst", vfirst, "first", volatile=True), V("blank", blank, "first"), V("blankb", blankb, "first"),
         V("add", add, "data"), V("mul", mul, "data"), V("tog", tog, "data"), V("cat", cat, "data"), V("gen", gen, "data"),
         V("req", req, "data"), V("coll", coll, "data"), V("mix", mix, "data"), V("ctx", ctx, "data"), V("cmid", cmid, "data"),
         V("ident", ident, "data"),
